@@ -63,7 +63,7 @@ func stscOf(spc []int) []stscEntry {
 
 // buildMultiProg lays out ftyp, moov, mdat (or ftyp, mdat, moov) with the chunks of all tracks interleaved
 // round-robin. co64 selects 64-bit chunk offsets; edts adds an edit list to every track.
-func buildMultiProg(tracks []cropTrack, co64, mdatFirst, edts bool) []byte {
+func buildMultiProg(tracks []cropTrack, co64, mdatFirst, edts, cropMdat64 bool) []byte {
 	ftyp := mFtyp("isom", 0x200, "isom", "iso2", "mp41")
 	// chunk order: round robin over tracks
 	type ck struct{ t, c int }
@@ -148,13 +148,18 @@ func buildMultiProg(tracks []cropTrack, co64, mdatFirst, edts bool) []byte {
 		return mkBox("moov", mMvhd(1000, maxDurMs, int64(len(tracks)+1)), traks)
 	}
 	moov := build(0)
-	if mdatFirst {
-		base := len(ftyp) + 8
-		return cat(ftyp, mMdat(payload, false), build(int64(base)))
+	hdr := 8
+	if cropMdat64 {
+		hdr = 16 // cropMdat64: the mdat box uses the 64-bit largesize header form
 	}
-	base := len(ftyp) + len(moov) + 8
-	return cat(ftyp, build(int64(base)), mMdat(payload, false))
+	if mdatFirst {
+		base := len(ftyp) + hdr
+		return cat(ftyp, mMdat(payload, cropMdat64), build(int64(base)))
+	}
+	base := len(ftyp) + len(moov) + hdr
+	return cat(ftyp, build(int64(base)), mMdat(payload, cropMdat64))
 }
+
 
 // mTrakD is mTrak with separate media and track (movie timescale) durations.
 func mTrakD(trackID, timescale, mediaDur, trackDur int64, video bool, extraTrakChildren []byte, stblChildren ...[]byte) []byte {
@@ -365,8 +370,8 @@ func c10Replay(args []string) error {
 			defer wg.Done()
 			defer func() { <-sem }()
 			c := &cases[i]
-			variant := i % 4
-			in := buildMultiProg(c.Tracks, variant == 1, variant == 2, variant == 3)
+			variant := i % 6
+			in := buildMultiProg(c.Tracks, variant == 1, variant == 2 || variant == 5, variant == 3, variant >= 4)
 			inPath := filepath.Join(tmp, fmt.Sprintf("in%d.mp4", i))
 			outPath := filepath.Join(tmp, fmt.Sprintf("out%d.mp4", i))
 			_ = ioutil.WriteFile(inPath, in, 0644)
@@ -380,7 +385,7 @@ func c10Replay(args []string) error {
 			for t, tr := range c.Tracks {
 				kinds[t] = fmt.Sprintf("%s n=%d ts=%d stss=%v ctts=%v spc=%v", tr.Kind, len(tr.Durs), tr.Ts, tr.HasStss, len(tr.Ctos) > 0, tr.Spc)
 			}
-			cs := J{"tracks": c.Tracks, "d": c.D, "variant": []string{"stco", "co64", "mdat-first", "edts"}[variant], "expected_kept": c.Kept, "endtime": c.EndTime}
+			cs := J{"tracks": c.Tracks, "d": c.D, "variant": []string{"stco", "co64", "mdat-first", "edts", "mdat-largesize", "mdat-largesize-first"}[variant], "expected_kept": c.Kept, "endtime": c.EndTime}
 			if err != nil {
 				stats.Lock()
 				stats.fail++
